@@ -49,6 +49,7 @@ func checkC06(c *Ctx) {
 	r.Assumptions = []string{"all writes to a core.Line are stores through *Line / element stores / copy / append on its slices (the type is a plain []rune)", "application-supplied callbacks (Completer, SyntaxHighlighter, prompt functions) do not edit the buffer"}
 
 	// ---- inventory: no reflection / unsafe / linkname in the module (call-graph soundness)
+	checkBufferReread(c)
 	r.Rule("C06.no-reflection", "K6", "no package of the module imports reflect or unsafe (call-graph and write inventories are sound)", 1)
 	{
 		bad := []string{}
